@@ -1,3 +1,213 @@
+"""Engine V: extract function bodies mechanically from /repo's working tree, apply only the named
+rewrite rules listed per function in verus/<unit>/spec.toml, splice the contract between
+signature and body, wrap with verus/<unit>/env.rs and run `verus <file>`.
+
+What is verified is the repository's statement text; env.rs (types, assumed callee contracts,
+spec functions, lemmas) and the contracts are ours and are listed in evidence as the trusted
+base.  Anything the rewrite list cannot express => Broken (exit 2), never an alarm."""
+import json, os, re, tomllib
 from common import *
+import rustscan
+
+RULES = {
+    "R-sig": "signature adapted to the env types: generics/lifetimes dropped, receiver made &mut where the body mutates through a lock/cell, parameter types mapped to env stand-ins",
+    "R-ret": "return value given a name so `ensures` can refer to it (no semantic change)",
+    "R-log": "logging statement deleted (debug!/info!/trace!/error!)",
+    "R-unsafe": "`unsafe { E }` -> `{ E }`; Rust's own unsafety obligations are not checked by Verus",
+    "R-assert": "assert!/assert_eq!/debug_assert! -> `if !(c) { rt_panic() }` with rt_panic() requires false: panic-freedom becomes a proof obligation",
+    "R-ice": "ice!/panic!/unreachable!/unwrap-on-None -> rt_panic() likewise",
+    "R-lock": "`.lock().unwrap()` / `.read().unwrap()` / `.write().unwrap()` dropped: the function is verified as the critical section it is; lock acquisition, poisoning and concurrency are not modelled",
+    "R-index": "Index/IndexMut sugar on Stack/StackFrame replaced by the body of the real Index impl (`self.values[i]`)",
+    "R-frame": "`self.frames.last()` field reads projected to a `cur_frame` value",
+    "R-cast": "numeric cast rewritten to the env helper with the same machine semantics (Verus then proves it lossless or the obligation fails)",
+    "R-gc": "construct_gc!(T { @a: x, b }) -> T { a: x, b }; clone_unrooted()/unrooted()/get_value() treated as identity on the abstract value: rooting discipline is not modelled",
+    "R-inv": "loop invariant / decreases clause inserted after a loop header (specification only)",
+    "R-ghost": "ghost/proof statement inserted (specification only, erased at run time)",
+    "R-iter": "iterator adapter or for-loop rewritten to the equivalent indexed while loop",
+    "R-err": "error-value construction mapped to the env's abstract error constructor (payload formatting dropped)",
+    "R-path": "path/generic syntax adapted (turbofish, crate:: prefixes, trait-qualified calls) with no change of callee",
+    "R-slice": "slice/Vec API call mapped to the env helper with the std semantics stated as its contract",
+}
+
+
+def _apply_rewrites(text, rewrites, where):
+    fired = []
+    for rw in rewrites:
+        rule, pat, rep = rw[0], rw[1], rw[2]
+        if rule not in RULES:
+            raise Broken("unknown rewrite rule %s in %s" % (rule, where))
+        new, n = re.subn(pat, rep, text, flags=re.S)
+        minimum = rw[3] if len(rw) > 3 else 1
+        if n < minimum:
+            raise Broken("rewrite %s %r no longer applies in %s (source changed shape; check needs maintenance)" % (rule, pat, where))
+        text = new
+        fired.append({"rule": rule, "pattern": pat, "count": n})
+    return text, fired
+
+
+def _check_structs(spec):
+    for sc in spec.get("struct_check", []):
+        src = read(os.path.join(REPO, sc["file"]))
+        masked = rustscan.mask(src)
+        try:
+            _, ob, cb = rustscan.find_block(src, masked, r"(?:pub\s+)?(?:struct|enum)\s+" + re.escape(sc["name"]) + r"\b[^;{(]*\{")
+        except rustscan.ScanError:
+            raise Broken("struct/enum %s not found in %s" % (sc["name"], sc["file"]))
+        body = masked[ob:cb]
+        for fld in sc.get("fields", []):
+            if not re.search(r"\b%s\b" % re.escape(fld), body):
+                raise Broken("field/variant %s of %s disappeared from %s" % (fld, sc["name"], sc["file"]))
+
+
+def assemble(unit):
+    udir = os.path.join(VERIF, "verus", unit)
+    with open(os.path.join(udir, "spec.toml"), "rb") as f:
+        spec = tomllib.load(f)
+    env = read(os.path.join(udir, "env.rs"))
+    _check_structs(spec)
+    blocks = {}      # into -> [text]
+    order = []
+    finfo = {}
+    for fn in spec.get("fn", []):
+        src = read(os.path.join(REPO, fn["file"]))
+        try:
+            f = rustscan.find_fn(src, fn["name"], within=fn.get("within"), nth=fn.get("nth", 0))
+        except rustscan.ScanError as e:
+            raise Broken("lost anchor %s in %s: %s" % (fn["id"], fn["file"], e))
+        raw = f.text
+        text = rustscan.strip_comments(raw)
+        text, fired = _apply_rewrites(text, fn.get("rewrites", []), fn["id"])
+        # splice the contract before the body's opening brace
+        m = rustscan.mask(text)
+        # first '{' at paren depth 0
+        depth, pos = 0, None
+        for i, ch in enumerate(m):
+            if ch in "([":
+                depth += 1
+            elif ch in ")]":
+                depth -= 1
+            elif ch == "{" and depth == 0:
+                pos = i
+                break
+        if pos is None:
+            raise Broken("no body found after rewriting %s" % fn["id"])
+        contract = fn.get("contract", "").rstrip()
+        attrs = "".join("    %s\n" % a for a in fn.get("attrs", []))
+        text = attrs + "    " + text[:pos].rstrip() + "\n" + contract + "\n    " + text[pos:]
+        into = fn.get("into", "")
+        if into not in blocks:
+            blocks[into] = []
+            order.append(into)
+        blocks[into].append((fn["id"], text))
+        finfo[fn["id"]] = {"source": "%s:%d %s" % (fn["file"], f.line, fn["name"]), "source_sha": sha(raw),
+                           "rules": fired, "verus_name": fn.get("verus_name", fn["id"])}
+    out = ["// GENERATED by /verif/lib/verus_run.py from /repo's working tree -- do not edit", "#![allow(unused)]",
+           "use vstd::prelude::*;"]
+    out += spec.get("unit", {}).get("uses", [])
+    out.append("verus! {")
+    out.append("// ---- env.rs (hand-written: types, assumed callee contracts, spec fns, lemmas)")
+    out.append(env)
+    ranges = []
+    for into in order:
+        out.append("// ---- extracted from /repo (bodies are the repository's text after the named rewrites)")
+        if into:
+            out.append(into + " {")
+            out.append(spec.get("into_prelude", {}).get(into, ""))
+        for fid, text in blocks[into]:
+            start = sum(x.count("\n") + 1 for x in out) + 1
+            out.append(text)
+            end = sum(x.count("\n") + 1 for x in out)
+            ranges.append((start, end, fid))
+        if into:
+            out.append("}")
+    out.append("} // verus!")
+    out.append("fn main() {}")
+    text = "\n".join(out) + "\n"
+    return spec, text, finfo, ranges
+
+
+def trusted_scan(env_text, spec):
+    t = []
+    for m in re.finditer(r"#\[verifier::external_body\]\s*(?:pub\s+)?(?:(?:proof|spec|exec)\s+)?(fn|struct|enum)\s+(\w+)", env_text):
+        t.append("verus external_body %s %s" % (m.group(1), m.group(2)))
+    for m in re.finditer(r"assume_specification\s*(?:<[^>]*>)?\s*\[\s*([^\]]+)\]", env_text):
+        t.append("verus assume_specification %s" % m.group(1).strip())
+    for m in re.finditer(r"\b(assume|admit)\s*\(", env_text):
+        t.append("verus %s( in env.rs" % m.group(1))
+    for m in re.finditer(r"#\[verifier::(external|external_fn_specification|external_type_specification)\]", env_text):
+        t.append("verus %s item in env.rs" % m.group(1))
+    return t
+
+
 def run_unit(unit):
-    raise Broken("verus engine not built yet")
+    spec, text, finfo, ranges = assemble(unit)
+    d = os.path.join(WORK, "verus")
+    os.makedirs(d, exist_ok=True)
+    stem = "vu_" + unit
+    path = os.path.join(d, stem + ".rs")
+    with open(path, "w") as f:
+        f.write(text)
+    rlimit = str(spec.get("unit", {}).get("rlimit", 30))
+    cmd = ["verus", path, "--output-json", "--time-expanded", "--rlimit", rlimit, "--num-threads", str(min(NCPU, 8)), "--multiple-errors", "4"]
+    rc, out, secs, timed_out = run(cmd, cwd=d, timeout=int(spec.get("unit", {}).get("timeout", 900)))
+    res = {"file": path, "wall_s": round(secs, 2), "functions": {}, "trusted": trusted_scan(read(os.path.join(VERIF, "verus", unit, "env.rs")), spec)}
+    used = {}
+    for fid, fi in finfo.items():
+        for r in fi["rules"]:
+            used[r["rule"]] = used.get(r["rule"], 0) + r["count"]
+    res["trusted"] += ["rewrite %s x%d: %s" % (k, v, RULES[k]) for k, v in sorted(used.items())]
+    if timed_out:
+        raise Broken("verus timed out on unit %s" % unit)
+    # split stdout JSON from stderr diagnostics (we merged them): JSON object starts at first line == "{"
+    lines = out.splitlines()
+    try:
+        jstart = next(i for i, l in enumerate(lines) if l == "{")
+        jend = max(i for i, l in enumerate(lines) if l == "}")
+        data = json.loads("\n".join(lines[jstart:jend + 1]))
+        diag = "\n".join(lines[:jstart] + lines[jend + 1:])
+    except (StopIteration, ValueError, json.JSONDecodeError):
+        raise Broken("verus produced no JSON for unit %s:\n%s" % (unit, out[-3000:]))
+    vr = data.get("verification-results", {})
+    res["summary"] = {k: vr.get(k) for k in ("verified", "errors", "success", "encountered-vir-error")}
+    # diagnostics -> function by line range
+    errs = []
+    for blk in re.split(r"\n(?=error)", diag):
+        m = re.match(r"error(?:\[\w+\])?: (.*)", blk)
+        if not m:
+            continue
+        loc = re.search(r"--> %s:(\d+):(\d+)" % re.escape(path), blk) or re.search(r"--> [^\n]*%s\.rs:(\d+):(\d+)" % re.escape(stem), blk)
+        line = int(loc.group(1)) if loc else None
+        fid = next((f for a, b, f in ranges if line and a <= line <= b), None)
+        errs.append({"message": m.group(1).strip(), "line": line, "function": fid, "text": blk.strip()[:1500]})
+    hard = [e for e in errs if not re.match(r"(postcondition not satisfied|precondition not satisfied|assertion failed|invariant not satisfied|possible arithmetic|possible division|possible bit shift|decreases not satisfied|aborting due|recommendation not met|loop invariant|could not prove termination|cannot show invariant|constructed value may fail|possible truncation|possible cast)", e["message"], re.I)
+            and "rlimit" not in e["message"].lower() and "resource limit" not in e["message"].lower()]
+    if vr.get("encountered-vir-error") or hard or (not vr.get("success") and not vr.get("errors")):
+        raise Broken("verus rejected unit %s (unsupported construct or type error, not a verification failure):\n%s" % (unit, "\n".join(e["text"] for e in hard[:3]) or diag[-2000:]))
+    breakdown = {}
+    for mod in data.get("times-ms", {}).get("smt", {}).get("smt-run-module-times", []):
+        for fb in mod.get("function-breakdown", []):
+            breakdown[fb["function"].split("::", 1)[-1]] = fb
+    names = {fid: fi["verus_name"] for fid, fi in finfo.items()}
+    for lem in spec.get("lemma", []):
+        names[lem["id"]] = lem.get("verus_name", lem["id"])
+        finfo[lem["id"]] = {"source": "verus/%s/env.rs lemma %s" % (unit, lem["id"]), "source_sha": None, "rules": []}
+    for fid, vname in names.items():
+        fb = breakdown.get(vname)
+        fr = {"source": finfo[fid]["source"], "source_sha": finfo[fid]["source_sha"],
+              "rules": ["%s x%d" % (r["rule"], r["count"]) for r in finfo[fid]["rules"]]}
+        my_errs = [e for e in errs if e["function"] == fid or (e["function"] is None and vname.split("::")[-1] in e["text"])]
+        if fb is None:
+            if vr.get("success") and not my_errs:
+                fr.update(status="success", time_s=0.0, smt_s=0.0, note="no SMT query needed")
+            else:
+                fr.update(status="undecided", reason="function %s missing from verus function breakdown" % vname)
+        else:
+            fr.update(time_s=fb.get("time-micros", 0) / 1e6, smt_s=fb.get("time-micros", 0) / 1e6, rlimit=fb.get("rlimit"))
+            if fb.get("success"):
+                fr["status"] = "success"
+            elif any("rlimit" in e["message"].lower() or "resource limit" in e["message"].lower() for e in my_errs):
+                fr.update(status="undecided", reason="rlimit exceeded")
+            else:
+                fr.update(status="failure", errors=[{"message": e["message"], "text": e["text"]} for e in my_errs] or [{"message": "verus reports failure", "text": diag[-1500:]}])
+        res["functions"][fid] = fr
+    return res
